@@ -20,7 +20,34 @@ def _stmt(name, old, new, doc):
 
 h1 = _stmt("h1_collect", ".collect::<Vec<_>>()", ".collect()", "H1: turbofish dropped (the stand-in collect returns Vec)")
 
+def rf_u32_as_f64(text):
+    """RF': PLACE as f64 (a u32 field) -> verif_u32_as_f64(PLACE): the cast is an opaque function of its operand"""
+    pat = r"\b([a-z_][a-z_0-9]*(?:\.[a-z_][a-z_0-9]*)*) as f64\b"
+    n = len(re.findall(pat, text))
+    return re.sub(pat, r"verif_u32_as_f64(\1)", text), n
+
+
 PRELUDE = r'''
+use vstd::std_specs::ops::MulSpec;
+pub mod float_axioms {
+    use vstd::prelude::*;
+    use vstd::std_specs::ops::MulSpec;
+    // float multiplication never panics and is a deterministic function of its operands (result opaque)
+    pub broadcast axiom fn f64_mul_req(a: f64, b: f64) ensures #[trigger] a.mul_req(b);
+    pub broadcast axiom fn f64_mul_obeys(a: f64, b: f64) ensures <f64 as MulSpec<f64>>::obeys_mul_spec() || #[trigger] a.mul_spec(b) != a.mul_spec(b);
+}
+pub mod mul_bounds {
+    use vstd::prelude::*;
+    // nonlinear fact z3 does not find unprompted: the product of two 32-bit quantities fits 64 bits (so widening before
+    // multiplying is not reported as a possible overflow)
+    pub broadcast proof fn lemma_mul_u32_fits_u64(x: int, y: int)
+        requires 0 <= x <= u32::MAX, 0 <= y <= u32::MAX,
+        ensures 0 <= #[trigger] (x * y) <= 0xFFFF_FFFE_0000_0001,
+    { assert(0 <= x * y <= 0xFFFF_FFFE_0000_0001) by(nonlinear_arith) requires 0 <= x <= 0xFFFF_FFFF, 0 <= y <= 0xFFFF_FFFF; }
+}
+pub uninterp spec fn u32_as_f64(x: u32) -> f64;
+#[verifier::external_body]
+pub fn verif_u32_as_f64(x: u32) -> (r: f64) ensures r == u32_as_f64(x) { unimplemented!() }
 pub struct BucketAbs { pub count: u64, pub start: u64, pub end: u64 }
 pub mod histogram {
     use vstd::prelude::*;
@@ -99,7 +126,7 @@ pub mod filter_axioms {
         ensures #[trigger] s.filter(p) == #[trigger] s.filter(q),
     { lemma_filter_ext_ind(s, p, q); }
 }
-broadcast use filter_axioms::lemma_filter_ext;
+broadcast use {filter_axioms::lemma_filter_ext, mul_bounds::lemma_mul_u32_fits_u64, float_axioms::f64_mul_req, float_axioms::f64_mul_obeys};
 pub open spec fn nonempty(s: Seq<histogram::Bucket>) -> Seq<histogram::Bucket> { s.filter(|b: histogram::Bucket| b.abs().count > 0) }
 pub open spec fn mid(a: BucketAbs) -> u64 { (a.start + (a.end - a.start) / 2) as u64 }
 // C20: a non-empty bucket is reported once, at the midpoint of its range, with its count
@@ -122,6 +149,17 @@ ITEMS = [
          },
          ensures="""
             r@ =~= nonempty(self.inner.snapshot()).map_values(|b: histogram::Bucket| out_bucket(b.abs())),       // OBL drain_reports_every_nonempty_bucket_once
+         """),
+    # the closure of MetricAccumulatorEntry::write (accumulator.rs) that turns a drained bucket into the reported observation
+    dict(kind="struct", file="metrique-writer-core/src/value/mod.rs", name="Observation"),
+    dict(kind="fn", file="metrique-metricsrs/src/accumulator.rs", impl=r"^impl < V : MetricsRsVersion \+ \? Sized > Entry for MetricAccumulatorEntry < V >$", name="write",
+         label="MetricAccumulatorEntry::write::bucket_observation", ret="r",
+         closure_body=dict(after="buckets . iter ( ) . map ( | bucket |", sig="pub fn verif_bucket_observation(bucket: &Bucket) -> Observation", expr=True),
+         rules={"rf_u32_as_f64": 2}, extra_rewrites=[rf_u32_as_f64], unpinned=["rf_u32_as_f64"],
+         ensures="""
+            // C20: a drained bucket is reported as `count` occurrences at its value (total = value x count, float product opaque);
+            // no intermediate integer arithmetic that could wrap
+            r == (Observation::Repeated { total: u32_as_f64(bucket.value).mul_spec(u32_as_f64(bucket.count)), occurrences: bucket.count as u64 }),   // OBL bucket_reported_with_its_count_and_value
          """),
 ]
 POSTLUDE = ""
